@@ -99,10 +99,13 @@ def plan(seed, subbatch):
         faults["halt_to_window"] = {"p": cfg.choice((0.02, 0.05)), "lifespan_s": lifespan_s, "interval_s": interval,
                                     "kmin": -1, "kmax": 8, "after": warm}
     start = world.pick_start(cfg, base_s, tf_s)
+    env = planlib.dst_env(sub_rng(seed, "env"), n, base_s)
+    if env:
+        start = env[1]     # the stream straddles an offset change of the zone the process runs in
     pre, ops, fired, rows = planlib.stream_and_schedule(seed, subbatch, n, base_s, start, faults, burst, 0.0,
                                                         preload=cfg.choice((0, 0, 1, 5)))
     return {"format": 1, "property": ID, "seed": seed, "subbatch": subbatch,
-            "config": {"kind": kind, "members": members, "lifespan_s": lifespan_s, "base_s": base_s, "fill": fill_hex},
+            "config": {"process_tz": env[0] if env else None, "kind": kind, "members": members, "lifespan_s": lifespan_s, "base_s": base_s, "fill": fill_hex},
             "ops": [{"op": "new", "preload": pre}] + ops, "fired": dict(fired)}
 
 
